@@ -41,3 +41,18 @@ Proof. apply list_eqb_spec. apply list_eqb_N_spec. Qed.
 Definition is_nil {A} (l : list A) : bool := match l with [] => true | _ => false end.
 Lemma is_nil_false {A} (l : list A) : is_nil l = false <-> l <> [].
 Proof. destruct l; cbn; split; congruence. Qed.
+
+(** Boolean NoDup for a type with a reflected boolean equality. *)
+Section NoDupb.
+  Context {A : Type} (eqb : A -> A -> bool).
+  Hypothesis eqb_spec : forall x y, eqb x y = true <-> x = y.
+  Fixpoint nodupb (l : list A) : bool :=
+    match l with [] => true | x :: l' => negb (existsb (eqb x) l') && nodupb l' end.
+  Lemma nodupb_spec l : nodupb l = true -> NoDup l.
+  Proof.
+    induction l as [|x xs IH]; cbn; [constructor|]. rewrite andb_true_iff, negb_true_iff. intros [H1 H2].
+    constructor; [|now apply IH]. intros Hin.
+    assert (existsb (eqb x) xs = true) by (apply existsb_exists; exists x; split; [assumption|now apply eqb_spec]).
+    congruence.
+  Qed.
+End NoDupb.
